@@ -23,9 +23,13 @@ GroupOf(j) ==
         heap |-> [s \in DOMAIN j.heap |-> ToSet(j.heap[s])],
         asg |-> j.asg, cnt |-> j.cnt, epoch |-> j.epoch, coord |-> j.coord]
 
+\* {"sa": [0], "sb": []} -> {<<"sa", 0>>}
+PausedOf(j) == UNION {{<<s, j[s][i]>> : i \in DOMAIN j[s]} : s \in DOMAIN j}
+
 TraceInit ==
   LET e == Trace[1] IN
   /\ gs = [v \in Servers |-> GroupOf(e.st.gs[v])]
+  /\ paused = PausedOf(e.st.paused)
   /\ parts = e.st.parts /\ idx = e.st.idx /\ obs = e.obs
   /\ taint = {}
   /\ l = 2
@@ -33,6 +37,7 @@ TraceInit ==
 Bind(e) ==
   /\ gs' = [v \in Servers |-> GroupOf(e.st.gs[v])]
   /\ parts' = e.st.parts /\ idx' = e.st.idx /\ obs' = e.obs
+  /\ paused' = PausedOf(e.st.paused)
 
 NewTaint(e) ==
   (IF e.a = "Restore" /\ gs[e.args.srv].exists /\ ~RestoreNeutral(gs[e.args.srv]) THEN {"restored"} ELSE {})
@@ -56,15 +61,17 @@ PropOf(e) ==
 
 ImplOf(e) ==
   CASE e.a = "CreateStream" -> DoCreateStream(e.args.s, e.args.n)
-    [] e.a = "DeleteStream" -> (IF obs'.err = "precondition" THEN UNCHANGED <<gs, parts, idx>> ELSE DoDeleteStream(e.args.s))
+    [] e.a = "DeleteStream" -> (IF obs'.err = "precondition" THEN UNCHANGED <<gs, parts, paused, idx>> ELSE DoDeleteStream(e.args.s))
     [] e.a = "CreateGroup" -> DoProposeCreateGroup(e.args.c, ToSet(e.args.streams), e.args.coord)
     [] e.a = "Join" -> DoProposeJoin(e.args.c, ToSet(e.args.streams))
     [] e.a = "Leave" -> DoLeave(e.args.c)
     [] e.a = "ChangeCoordinator" -> DoChangeCoordinator(e.args.coord)
     [] e.a = "Restore" -> DoRestore(e.args.srv, e.args.order)
+    [] e.a = "Pause" -> DoPause(e.args.s, e.args.p)
+    [] e.a = "Resume" -> DoResume(e.args.s, e.args.p)
     [] e.a \in {"Sync", "Race", "Crash"} -> TRUE
     [] e.a = "GetAssignments" -> DoGetAssignments(e.args.srv, e.args.c, e.args.e)
-    [] OTHER -> UNCHANGED <<gs, parts, idx>>
+    [] OTHER -> UNCHANGED <<gs, parts, paused, idx>>
 
 Tag == IF "restored" \in taint' THEN "restore-history" ELSE "-"
 Fail(kind, e, name) == PrintT(<<"FAIL", kind, e.t, l, e.a, name, Tag>>)
